@@ -367,10 +367,47 @@ def trav_cases(draw, tier):
     return {"n": n, "family": family, "edges": edges, "source": s, "target": _draw_target(draw, n, s, edges)}
 
 
+def _binomial_case(draw):
+    """Drives a union-by-rank forest to its maximal depth before cycle-closing edges arrive.
+
+    2^k nodes; the level-j edges (weight class j) join blocks of 2^j nodes pairwise, so Kruskal must merge pairs, then
+    pairs of pairs, then halves: a rank-k tree with a node k hops from its root (k = 3 needs 8 nodes, which uniform
+    graphs on <= 8 nodes essentially never produce).  Then 2..2^k heavier edges inside the block (all of them close a
+    cycle; the ones that start at the deepest node are the ones a lazy find() gets wrong), then 1..3 further nodes hanging
+    on still heavier edges (kruskal stops after n-1 accepted edges, so without them the cycle-closing edges would
+    never be looked at), 0..2 noise edges of any weight class; nodes relabelled by a drawn permutation, edge list
+    shuffled, weights = (base + class) * step with step 1 or 0.5.  Up to 11 nodes, also in the quick tier."""
+    k = draw(st.sampled_from([3, 3, 3, 2]))
+    blk = 2**k
+    inblk = st.integers(0, blk - 1)
+    tri = []
+    for j in range(k):
+        size = 2**j
+        for a in range(0, blk, 2 * size):
+            u = a + draw(st.integers(0, size - 1))
+            v = a + size + draw(st.integers(0, size - 1))
+            tri.append([u, v, j] if draw(st.booleans()) else [v, u, j])
+    tri += [list(t) for t in draw(st.lists(st.tuples(inblk, inblk, st.integers(k, k + 1)), min_size=2, max_size=blk))]
+    n = blk
+    for _ in range(draw(st.integers(1, 3))):
+        host = draw(st.integers(0, n - 1))
+        tri.append([host, n, k + 2 + draw(st.integers(0, 1))] if draw(st.booleans()) else [n, host, k + 2 + draw(st.integers(0, 1))])
+        n += 1
+    anynode = st.integers(0, n - 1)
+    tri += [list(t) for t in draw(st.lists(st.tuples(anynode, anynode, st.integers(0, k + 3)), max_size=2))]
+    perm = draw(st.permutations(range(n)))
+    base = draw(st.integers(-3, 2))
+    step = draw(st.sampled_from([1, 1, 0.5]))
+    edges = _shuffled(draw, [[perm[u], perm[v], (base + c) * step] for u, v, c in tri])
+    return {"n": n, "family": "binomial", "edges": edges, "allow_forest": draw(st.booleans()), "explicit": draw(st.booleans())}
+
+
 @st.composite
 def mst_cases(draw, tier):
     n = _draw_n(draw, tier)
-    family = draw(st.sampled_from(["sparse", "tree+extra", "tree+extra", "ties"]))
+    family = draw(st.sampled_from(["sparse", "tree+extra", "tree+extra", "ties", "binomial", "binomial"]))
+    if family == "binomial":
+        return _binomial_case(draw)
     if family == "tree+extra":
         perm = draw(st.permutations(range(n)))
         pairs = []
@@ -649,6 +686,39 @@ def run_dfs(desc, ctx):
     ctx.label(f"status-{stt}")
 
 
+def _uf_depth_at_find(n, edges):
+    """Generator measurement only: the largest number of parent hops a find() has to walk while Kruskal (stable sort by
+    weight, union by rank with ties resolved as 'second root under first', full path compression, stop after n-1
+    accepted edges) examines the edges.  >= 3 is the regime where a find() that does not walk to the root goes wrong."""
+    parent, rank = list(range(n)), [0] * n
+    deepest = accepted = 0
+
+    def find(x):
+        nonlocal deepest
+        path = []
+        while parent[x] != x:
+            path.append(x)
+            x = parent[x]
+        deepest = max(deepest, len(path))
+        for y in path:
+            parent[y] = x
+        return x
+
+    for u, v, _ in sorted(edges, key=lambda e: e[2]):
+        a, b = find(u), find(v)
+        if a == b:
+            continue
+        if rank[a] < rank[b]:
+            parent[a] = b
+        else:
+            parent[b] = a
+            rank[a] += rank[a] == rank[b]
+        accepted += 1
+        if accepted == n - 1:
+            break
+    return deepest
+
+
 def run_mst(desc, ctx):
     fname = "kruskal"
     n, af = desc["n"], desc["allow_forest"]
@@ -659,6 +729,9 @@ def run_mst(desc, ctx):
     ctx.label(f"family-{desc['family']}", "connected" if comps == 1 else "disconnected", "allow_forest" if af else "tree-only")
     ctx.size("components", comps)
     ctx.nontrivial(dupanti)
+    deep = _uf_depth_at_find(n, edges)
+    ctx.size("union-find-depth-at-find", deep)
+    ctx.label(deep >= 3 and "union-find-depth>=3-when-an-edge-is-examined")
     meanings = {}
     for b, r in res.items():
         stt = _status(r)
